@@ -13,6 +13,8 @@ theorem Shape_Transformer :
     Generated.skel_CreateDocumentMetadata = some ExpectedSkeletons.skel_CreateDocumentMetadata ∧
     Generated.skel_getPublishedOperations = some ExpectedSkeletons.skel_getPublishedOperations ∧
     Generated.skel_getUnpublishedOperations = some ExpectedSkeletons.skel_getUnpublishedOperations ∧
-    Generated.skel_sortOperations = some ExpectedSkeletons.skel_sortOperations :=
-  ⟨rfl, rfl, rfl, rfl, rfl, rfl, rfl, rfl, rfl, rfl, rfl⟩
+    Generated.skel_sortOperations = some ExpectedSkeletons.skel_sortOperations ∧
+    Generated.skel_generic_TransformDocument = some ExpectedSkeletons.skel_generic_TransformDocument ∧
+    Generated.lit_tags_ResolutionResult = some ExpectedSkeletons.lit_tags_ResolutionResult :=
+  ⟨rfl, rfl, rfl, rfl, rfl, rfl, rfl, rfl, rfl, rfl, rfl, rfl, rfl⟩
 end Sidetree.Obligations
